@@ -93,7 +93,7 @@ func checkC06(c C06Case, o *Obs) error {
 		if p != nil {
 			return fmt.Errorf("%s %s panicked: %v (input %s)", c.Format, what, p, gen.Abbrev(text))
 		}
-		if over || !sameKeys(got, base) {
+		if over || !sameItems(got, base) {
 			return fmt.Errorf("%s: %s yields %s, but reading the same %d bytes from memory yields %s (input %s)", c.Format, what, describeItems(got), len(text), describeItems(base), gen.Abbrev(text))
 		}
 		return nil
